@@ -61,6 +61,15 @@ CONF_IMPORT = {
     'inc1.conf': ['kb 4', '%import ZConfig.components.basic', 'kb 5'],
 }
 
+# resources addressed through package: URLs - a regular package and a PEP 420 namespace package
+# (no __init__.py; its loader has no get_data(), ZConfig reports that as a resource error)
+CONF_PKG = {
+    'main.conf': ['ka 1', '%include package:vfc19pk:frag.conf', 'kb 2', '%include package:vfc19ns:frag.conf', 'kb 3'],
+}
+CONF_PKG2 = {
+    'main.conf': ['ka 1', '%include package:vfc19ns:frag.conf'],
+}
+
 _DIR = {}
 
 
@@ -76,7 +85,14 @@ def workdir():
                            ('base2.xml', SCHEMA_BASE2), ('base3.xml', SCHEMA_BASE3),
                            ('types.xml', SCHEMA_TYPES)):
             open(os.path.join(d, name), 'w').write(text)
-        for sub, files in (('c1', CONF), ('c2', CONF_IMPORT)):
+        for pk, init in (('vfc19pk', True), ('vfc19ns', False)):
+            os.makedirs(os.path.join(d, pk))
+            if init:
+                open(os.path.join(d, pk, '__init__.py'), 'w').write('')
+            open(os.path.join(d, pk, 'frag.conf'), 'w').write('kb 7\n')
+        import sys
+        sys.path.insert(0, d)
+        for sub, files in (('c1', CONF), ('c2', CONF_IMPORT), ('c3', CONF_PKG), ('c4', CONF_PKG2)):
             for name, lines in files.items():
                 p = os.path.join(d, sub, name)
                 os.makedirs(os.path.dirname(p), exist_ok=True)
@@ -177,6 +193,10 @@ class Tracker:
         urllib.request.urlopen = self.orig_urlopen
         dtsupport.COUNTER.update(fail_at=None, sfail_at=None)
 
+    def disarm(self):
+        self.plan['kind'] = 'none'
+        dtsupport.COUNTER.update(fail_at=None, sfail_at=None)
+
     def report(self):
         return (len(self.resources), all(r.closed for r in self.resources),
                 all(s.closed for s in self.streams))
@@ -203,7 +223,9 @@ class C19(Harness):
     assumptions = (
         'scenarios: schema (extends 2 bases, one of which extends a third; import src; package component), '
         'config c1 (include chain of depth 3 incl. sub- and parent directory, include inside a section), '
-        'config c2 (%import of packages in main and included resource); all on temp files',
+        'config c2 (%import of packages in main and included resource); c3 / c4 (%include of package: resources of a '
+        'regular and of a namespace package); c1-twice / schema-twice (one loader object, a failed load, an edit to a '
+        'resource it had read, a retry that must see the edit); all on temp files',
         'fault kinds: exception on the i-th read call of the j-th created resource, failure of the j-th '
         'urlopen, failure of read() on the j-th URL stream, ValueError from the k-th datatype call, ValueError from the k-th section datatype call',
         'the spaces are finite; every feasible fault point is one path (exhaustive within the scenario)',
@@ -223,7 +245,7 @@ class C19(Harness):
 
     def units(self, tier):
         us = []
-        for scen in ('schema', 'c1', 'c2', 'c1-file', 'stringio', 'schema-twice'):
+        for scen in ('schema', 'c1', 'c2', 'c1-file', 'stringio', 'schema-twice', 'c3', 'c4', 'c1-twice'):
             for kind in ('none', 'read', 'open', 'stream', 'datatype', 'section'):
                 us.append({'scenario': scen, 'kind': kind})
         return us
@@ -249,6 +271,8 @@ class C19(Harness):
         fired = None
         outcome = None
         twice_schema = None
+        twice_cfg = None
+        edited = False
         reuse_error = None
         with Tracker(plan) as tr:
             try:
@@ -266,17 +290,52 @@ class C19(Harness):
                     except (Injected, OSError, ZConfig.ConfigurationError) as e:
                         first = e
                     if first is not None:
-                        # the injected fault fires once: the retry on the SAME loader must succeed
+                        # the injected fault fires once: the retry on the SAME loader must succeed -
+                        # and must read the resources as they are NOW (a base schema is edited in between)
+                        b3 = os.path.join(d, 'base3.xml')
                         try:
+                            open(b3, 'w').write(SCHEMA_BASE3.replace('<key name="ke"/>', '<key name="ke" default="e3"/>'))
                             twice_schema = sl.loadURL(os.path.join(d, 'schema.xml'))
+                            edited = True
                         except Exception as e:
                             reuse_error = type(e).__name__
+                        finally:
+                            open(b3, 'w').write(SCHEMA_BASE3)
                         raise first
                     twice_schema = sl.loadURL(os.path.join(d, 'schema.xml'))
+                elif scen == 'c1-twice':
+                    # ONE ConfigLoader serves two loads of the same URL; when the first fails, an
+                    # included resource is edited before the retry, which must see the edit
+                    import ZConfig.loader
+                    schema = ZConfig.loadSchema(os.path.join(d, 'schema.xml'))
+                    cl = ZConfig.loader.ConfigLoader(schema)
+                    path = os.path.join(d, 'c1', 'main.conf')
+                    first = None
+                    try:
+                        cl.loadURL(path)
+                    except (Injected, OSError, ZConfig.ConfigurationError) as e:
+                        first = e
+                    tr.disarm()        # the fault belongs to the first load
+                    inc = os.path.join(d, 'c1', 'inc1.conf')
+                    try:
+                        if first is not None:
+                            open(inc, 'w').write(''.join(l + '\n' for l in CONF['inc1.conf']).replace('kc x', 'kc edited'))
+                        try:
+                            cfg2, _ = cl.loadURL(path)
+                            t = P.walk(cfg2)[3][:3]
+                            want = ('kc', 'edited' if first is not None else 'x')
+                            twice_cfg = ('ok', [tuple(x) if tuple(x) != want else ('kc', 'x') for x in t]
+                                         if want in [tuple(x) for x in t] else ('stale', t))
+                        except Exception as e:
+                            twice_cfg = ('retry-on-reused-config-loader-failed', type(e).__name__)
+                    finally:
+                        open(inc, 'w').write(''.join(l + '\n' for l in CONF['inc1.conf']))
+                    if first is not None:
+                        raise first
                 else:
                     # the schema itself is loaded inside the tracked region as well
                     schema = ZConfig.loadSchema(os.path.join(d, 'schema.xml'))
-                    sub = 'c2' if scen == 'c2' else 'c1'
+                    sub = scen if scen in ('c2', 'c3', 'c4') else 'c1'
                     path = os.path.join(d, sub, 'main.conf')
                     if scen == 'stringio':
                         ZConfig.loadConfigFile(schema, io.StringIO('ka 1\nkb 2\n<ta>\n</ta>\n'))
@@ -303,9 +362,15 @@ class C19(Harness):
             # ... and so must a load against the schema the re-used loader handed out
             try:
                 cfg, _ = ZConfig.loadConfig(twice_schema, os.path.join(d, 'c1', 'main.conf'))
-                later = ('ok', P.walk(cfg)[3][:3])
+                t = [tuple(x) for x in P.walk(cfg)[3][:3]]
+                if edited:
+                    # the retry happened after base3.xml gained a default for 'ke'
+                    t = [('ke', None) if x == ('ke', 'e3') else (('ke', 'STALE') if x[0] == 'ke' else x) for x in t]
+                later = ('ok', t)
             except Exception as e:
                 later = ('failed-on-reused-loader', type(e).__name__)
+        if twice_cfg is not None and later[0] == 'ok':
+            later = twice_cfg
         return ('closed' if (res_closed and streams_closed) else 'LEAK', outcome, later)
 
     def _clean(self, d):
